@@ -6,7 +6,7 @@ from . import world as Wd
 
 
 class ExecResult(object):
-    __slots__ = ("outcome", "viol", "flushes", "decisions", "ctx_log", "probes", "steps", "started",
+    __slots__ = ("outcome", "viol", "flushes", "decisions", "ctx_log", "probes", "auto", "steps", "started",
                  "nsteps", "transitions", "unfinished", "computed", "schedule", "sink")
 
 
@@ -22,6 +22,7 @@ def execute(prog, prefix=(), **cfg):
     r.decisions = w.decisions
     r.ctx_log = w.ctx_log
     r.probes = w.probes
+    r.auto = w.auto
     r.steps = w.steps
     r.started = set(w.steps)
     r.nsteps = w.nsteps
@@ -78,7 +79,7 @@ def explore(prog, on_exec, max_execs=100000, **cfg):
 def observation(r):
     """what a program can observe of one execution (for differential oracles)"""
     return (repr(r.outcome), tuple(r.flushes), tuple(r.decisions), tuple(r.ctx_log),
-            tuple(sorted(r.probes.items())), tuple(sorted(r.steps.items())),
+            tuple(sorted(r.probes.items())) + tuple(sorted(r.auto.items())), tuple(sorted(r.steps.items())),
             tuple(sorted(set(c for c, m in r.viol))))
 
 
@@ -104,6 +105,7 @@ def run_history(comps, reset_between):
         r.decisions = w.decisions
         r.ctx_log = w.ctx_log
         r.probes = w.probes
+        r.auto = w.auto
         r.steps = w.steps
         r.started = set(w.steps)
         r.nsteps = w.nsteps
